@@ -113,12 +113,16 @@ def sympy_to_python_fn(
     unique_args: list[str] = []
     for i in args:
         name, n = i, 1
-        if i in ("math", "scipy"):
-            # would shadow the module the printed expression refers to
+        # would shadow the module the printed expression refers to
+        shadows_module = i in ("math", "scipy")
+        if shadows_module:
             name = f"{i}_"
-            expr = cast(sympy.Expr, expr.subs(sympy.Symbol(i), sympy.Symbol(name)))
-        while name in unique_args:
+        # A fresh name must not be one of the model's own argument names either: the
+        # expression refers to those, the fresh parameter is never read
+        while name in unique_args or (name != i and name in args):
             name, n = f"{i}_{n}", n + 1
+        if shadows_module:
+            expr = cast(sympy.Expr, expr.subs(sympy.Symbol(i), sympy.Symbol(name)))
         unique_args.append(name)
     fn_args = ", ".join(f"{i}: float" for i in unique_args)
 
